@@ -553,8 +553,176 @@ SQ_OV = {
 }
 
 
-def sqlite_targets():
+# ---- sharded store: every uncommitted change lies in a shard listed in dirty_shards
+
+from .spec_store import FakeDbList, FakeShardConn  # noqa: E402
+
+NDBS = z3.Int("n_dbs")
+UNC0 = z3.Array("uncommitted0", IntS, BoolS)
+SHARD = z3.Function("shard_of_name", StrS, IntS)
+
+
+def unc(I):
+    return I.ctx.ghost.get("unc", UNC0)
+
+
+def dbs_len_contract(I, args, kwargs):
+    return SInt(NDBS)
+
+
+def dbs_getitem_contract(I, args, kwargs):
+    i = args[1]
+    I.check_or_raise(z3.And(i.t >= -NDBS, i.t < NDBS), IndexError, "list index out of range")
+    conn = I.new_object(FakeShardConn)
+    conn.fields["shard"] = SInt(z3.If(i.t < 0, i.t + NDBS, i.t))
+    return conn
+
+
+def shard_execute_contract(I, args, kwargs):
+    """Connection.execute(INSERT / DELETE): sqlite3.OperationalError and nothing changed, or the change is
+    pending in this connection's open transaction"""
+    import sqlite3
+
+    conn = args[0]
+    if I.ctx.choose(2, "execute") == 1:
+        I.raise_exc(sqlite3.OperationalError, "database is locked")
+    s_ = conn.fields["shard"].t
+    I.ctx.ghost["unc"] = z3.Store(unc(I), s_, z3.BoolVal(True))
+    ev(I, "sqlite.execute", conn.fields["shard"], args[1] if len(args) > 1 else None)
+    return NONE
+
+
+def shard_commit_contract(I, args, kwargs):
+    conn = args[0]
+    s_ = conn.fields["shard"].t
+    I.ctx.ghost["unc"] = z3.Store(unc(I), s_, z3.BoolVal(False))
+    ev(I, "sqlite.commit", conn.fields["shard"])
+    return NONE
+
+
+def shard_index_contract(I, args, kwargs):
+    """_shard_index(name): a function of the name, within range (target store.sqlite.shard_index)"""
+    self = args[0]
+    n = I.getattr(self, "num_shards").t
+    r = SHARD(args[1].t)
+    I.ctx.assume(z3.And(r >= 0, r < z3.If(n <= 1, 1, n)))
+    return SInt(r)
+
+
+SH_OV = {
+    "contracts.spec_store:FakeDbList.__getitem__": dbs_getitem_contract, "contracts.spec_store:FakeDbList.__len__": dbs_len_contract,
+    "contracts.spec_store:FakeShardConn.execute": shard_execute_contract, "contracts.spec_store:FakeShardConn.commit": shard_commit_contract,
+    "mypy.metastore:SqliteMetadataStore._shard_index": shard_index_contract,
+    "time:time": returns(TFloat(), "now"),
+}
+SH_FT = {("SqliteMetadataStore", "dbs"): TObj(FakeDbList), ("SqliteMetadataStore", "num_shards"): TInt(), ("SqliteMetadataStore", "dirty_shards"): TSet(TInt()),
+         ("FakeShardConn", "shard"): TInt()}
+
+
+def store_inv(I, self, u=None):
+    """representation invariant: no connections (null store) or one per shard; every shard with an
+    uncommitted change is listed in dirty_shards; dirty_shards only names existing shards"""
+    n = I.getattr(self, "num_shards").t
+    dirty = I.getattr(self, "dirty_shards").t
+    u = unc(I) if u is None else u
+    i = z3.Int("sh_i")
+    return z3.And(NDBS >= 0, z3.Or(NDBS == 0, NDBS == z3.If(n <= 1, 1, n)),
+                  z3.ForAll([i], z3.Implies(z3.Select(u, i), z3.Select(dirty, i))),
+                  z3.ForAll([i], z3.Implies(z3.Select(dirty, i), z3.And(i >= 0, i < NDBS))))
+
+
+def setup_sq(with_name=True, extra=()):
+    def setup(I):
+        self = I.make(TObj(MS.SqliteMetadataStore), "store")
+        I.ctx.assume(store_inv(I, self, UNC0))
+        args = [self]
+        env = {"self": self}
+        if with_name:
+            env["name"] = I.make(TStr(), "name")
+            args.append(env["name"])
+        for nm, ty in extra:
+            env[nm] = I.make(ty, nm)
+            args.append(env[nm])
+        env["args"] = args
+        env["dirty0"] = I.getattr(self, "dirty_shards").t
+        return env
+    return setup
+
+
+def ens_sq_write(I, env, res):
+    """invariant kept; True => the change is pending in the name's shard and that shard is dirty; a null
+    store answers False and does nothing"""
+    self = env["self"]
+    s_ = SHARD(env["name"].t)
+    ex = [e for e in I.ctx.events if e[0] == "sqlite.execute"]
+    r = res.t if isinstance(res, SBool) else None
+    if r is None:
+        return z3.BoolVal(False)
+    did = z3.BoolVal(len(ex) == 1) if ex else z3.BoolVal(False)
+    on_shard = ex[0][1].t == s_ if ex else z3.BoolVal(True)
+    return z3.And(store_inv(I, self), on_shard, z3.Implies(r, z3.And(did, z3.Select(I.getattr(self, "dirty_shards").t, s_))),
+                  z3.Implies(NDBS == 0, z3.And(z3.Not(r), z3.BoolVal(not ex))))
+
+
+def exc_sq_inv(I, env, e):
+    return store_inv(I, env["self"])
+
+
+def ens_sq_remove(I, env, res):
+    return store_inv(I, env["self"])
+
+
+def ens_sq_commit_path(I, env, res):
+    """afterwards nothing is pending in the name's shard; other shards are untouched; invariant kept"""
+    self = env["self"]
+    s_ = SHARD(env["name"].t)
+    i = z3.Int("sh_j")
+    u1 = unc(I)
+    d1 = I.getattr(self, "dirty_shards").t
+    frame = z3.ForAll([i], z3.Implies(i != s_, z3.And(z3.Select(u1, i) == z3.Select(UNC0, i), z3.Select(d1, i) == z3.Select(env["dirty0"], i))))
+    return z3.And(store_inv(I, self), z3.Not(z3.Select(u1, s_)), frame)
+
+
+def ens_shard_index(I, env, res):
+    n = I.getattr(env["self"], "num_shards").t
+    return z3.And(res.t >= 0, res.t < z3.If(n <= 1, 1, n))
+
+
+def setup_commit_iter(I):
+    self = I.make(TObj(MS.SqliteMetadataStore), "store")
+    I.ctx.assume(store_inv(I, self, UNC0))
+    i = I.make(TInt(), "i")
+    I.ctx.assume(z3.Select(I.getattr(self, "dirty_shards").t, i.t))
+    return {"args": [], "locals": {"self": self, "i": i}, "self": self, "i": i}
+
+
+def ens_commit_iter(I, env, res):
+    """one dirty shard: its connection is committed (nothing pending there afterwards), no other shard is
+    touched, no index error"""
+    i = env["i"].t
+    j = z3.Int("sh_k")
+    u1 = unc(I)
+    return z3.And(z3.Not(z3.Select(u1, i)), z3.ForAll([j], z3.Implies(j != i, z3.Select(u1, j) == z3.Select(UNC0, j))))
+
+
+def sqlite_shard_targets():
+    mk = lambda id, fn, **kw: Target(id, "mypy.metastore:SqliteMetadataStore." + fn, field_types=SH_FT, **kw)
+    ov_noidx = {k: v for k, v in SH_OV.items() if not k.endswith("_shard_index")}
     return [
+        mk("store.sqlite.shard_index", "_shard_index", setup=setup_sq(), ensures=[("within-range", ens_shard_index)], raises=(),
+           overrides=dict(ov_noidx, **{"mypy.util:hash_path_stem": returns(TInt(), "stem_hash"), "mypy.metastore:hash_path_stem": returns(TInt(), "stem_hash")})),
+        mk("store.sqlite.write", "write", setup=setup_sq(extra=(("data", TBytes()), ("mtime", TOpt(TFloat())))), ensures=[("pending-change-is-in-a-dirty-shard", ens_sq_write)],
+           exc_ensures=[("invariant-kept", exc_sq_inv)], raises=(), overrides=SH_OV),
+        mk("store.sqlite.remove", "remove", setup=setup_sq(), ensures=[("invariant-kept", ens_sq_remove)], exc_ensures=[("invariant-kept", exc_sq_inv)],
+           raises=(FileNotFoundError, __import__("sqlite3").OperationalError), overrides=SH_OV),
+        mk("store.sqlite.commit_path", "commit_path", setup=setup_sq(), ensures=[("shard-of-the-name-is-committed", ens_sq_commit_path)], raises=(), overrides=SH_OV),
+        mk("store.sqlite.commit.iteration", "commit", setup=setup_commit_iter, loop_body=("for i in self.dirty_shards", None),
+           ensures=[("dirty-shard-committed", ens_commit_iter)], raises=(), overrides=SH_OV),
+    ]
+
+
+def sqlite_targets():
+    return sqlite_shard_targets() + [
         Target("store.sqlite.connect_db", "mypy.metastore:connect_db", setup_connect, ensures=[("connections-are-transactional", ens_connect)],
                raises=(), overrides=SQ_OV, note="sqlite3 is external: its transaction semantics are the stated contract of connect()"),
     ]
